@@ -167,7 +167,7 @@ def playback(ws, package, name, timeout_s):
     env = env_offline()
     env['RUSTFLAGS'] = '--cfg cadence_verif'
     rc, out, err, wall = run(cmd, cwd=ws, timeout=timeout_s + 600, env=env)
-    tests = re.findall(r'Check for `(\w+)`: "(.*?)"\n#\[test\]\nfn \w+\(\) \{\n\s*let concrete_vals: Vec<Vec<u8>> = vec!\[(.*?)\];', out, re.S)
+    tests = re.findall(r'Check for `(\w+)`: "(.*?)"\s*\n#\[test\]\nfn \w+\(\) \{\n\s*let concrete_vals: Vec<Vec<u8>> = vec!\[(.*?)\];', out, re.S)
     res = []
     for kind, desc, body in tests:
         if kind == 'cover':
